@@ -6,8 +6,8 @@ cd /verif
 git -C /repo diff --quiet || { echo "/repo has local modifications; refusing"; exit 3; }
 git -C /repo apply /verif/seeded/$id/patch.diff || exit 3
 for p in $props; do
-  ./check $p --quick > /tmp/seedtest_$id_$p.out 2>&1; rc=$?
-  echo "seed $id check $p exit=$rc :: $(grep -c '^VIOLATION' /tmp/seedtest_$id_$p.out) violation line(s)"
-  grep '^VIOLATION\|^CHECKER\|^UNDECIDED' /tmp/seedtest_$id_$p.out | head -5
+  ./check $p --quick > /tmp/seedtest_${id}_$p.out 2>&1; rc=$?
+  echo "seed $id check $p exit=$rc :: $(grep -c '^VIOLATION' /tmp/seedtest_${id}_$p.out) violation line(s)"
+  grep '^VIOLATION\|^CHECKER\|^UNDECIDED' /tmp/seedtest_${id}_$p.out | head -5
 done
 git -C /repo checkout -- .
